@@ -140,7 +140,10 @@ EXT_HAND = [
     {"spec": "spec: (exists X q(X)) <-> (exists X p(X)).", "right": "p(X) :- q(X), X > 0.", "ug": UG0},
     {"spec": "spec: not forall X (p(X) <-> q(X)).", "right": "p(X) :- q(X), X != 0.", "ug": UG0},
     # equivalences in negative positions
-    {"spec": "spec: forall X ((p(X) <-> q(X)) -> q(X)).", "right": "p(X) :- q(X), X > 0.", "ug": UG0},
+    {"spec": "spec: forall X ((p(X) <-> q(X)) -> q(X)).", "right": "p(X) :- q(X + 1).", "ug": UG0},
+    {"spec": "spec: (a <-> b) -> c.", "right": "c :- a, b. c :- not a, not b.", "ug": "input: a/0. input: b/0. output: c/0."},
+    {"spec": "spec: forall X (not (p(X) <-> q(X)) or q(X)).", "right": "p(X) :- q(X + 1).", "ug": UG0},
+    {"spec": "spec: forall X ((p(X) <-> q(X)) -> (q(X) <-> p(X))). spec: forall X (((p(X) <-> q(X)) and q(X)) -> p(X)).", "right": "p(X) :- q(X - 1).", "ug": UG0},
     {"spec": "spec: (p(1) <-> q(1)) -> p(2).", "right": "p(2) :- p(1), q(1). p(2) :- not p(1), not q(1). p(1) :- q(2).", "ug": UG0},
     {"spec": "spec: not (p(0) <-> q(0)). spec: forall X (p(X) -> q(X) or X = 0).", "right": "p(0) :- not q(0). p(X) :- q(X), X != 0.", "ug": UG0},
     {"spec": "spec: ((p(0) <-> q(0)) <-> p(1)).", "right": "p(0) :- q(0). p(1) :- q(0). p(1) :- not q(0).", "ug": UG0},
